@@ -59,7 +59,7 @@ def tlc_jobs(ctx):
     jobs = [
         ("MCRoundTripMatrix%s.cfg" % T, "decoder o encoder = Project over the %s option matrix (format x dense x blob compression x "
          "metadata subset x history x locations-on-ways x file compression) x 18 element shapes" % ("816-point" if q else "full 3264-point"), "mc"),
-        ("MCRoundTripSeq%s.cfg" % T, "all object-type sequences to length %d (type switches force new blocks) x 4 formats" % (4 if q else 5), "mccov"),
+        ("MCRoundTripSeq%s.cfg" % T, "all object-type sequences to length %d (type switches force new blocks) x 4 formats" % (4 if q else 6), "mccov"),
         ("MCRoundTripBlocks%s.cfg" % T, "PBF block machine: runs of 1/7999/8000/8001 objects, blocks filled to the 95 %% gate, string-table-heavy "
          "blocks, sequences to length %d: count <= 8000, size <= 32 MiB, delta reset, round trip" % (3 if q else 4), "mc"),
         ("MCRoundTripF7.cfg", "vacuity / open finding F7a: with one object above 5 %% of the blob limit OutcomeAgrees must be violated", "fail:OutcomeAgrees"),
@@ -149,7 +149,7 @@ def make_cases(ctx, tlcres):
         if not lst:
             raise vlib.ModelFailure("TLC exported no %s cases" % fam)
         lst.sort(key=lambda c: json.dumps(c, sort_keys=True))
-    seeds = [ctx.seed] if quick else [ctx.seed + k for k in range(3)]
+    seeds = [ctx.seed] if quick else [ctx.seed + k for k in range(5)]
     for sd in seeds:
         for i, b in enumerate(matrix):
             if quick:
@@ -161,18 +161,23 @@ def make_cases(ctx, tlcres):
                 for j, (cp, fc) in enumerate(combos):
                     add(b, "matrix", cp, fc, THREADS[(i + j) % 2], sd * 100003 + i * 16 + j)
     for i, b in enumerate(seq):
-        if quick and (i + ctx.seed) % 3 != 0:
-            continue
         add(b, "seq", COMPS[i % 3], FCOMPS[(i // 3) % 3] if i % 5 == 0 else "none", THREADS[i % 2], ctx.seed * 7919 + i)
-    for i, b in enumerate(bulk):
-        if quick and (i + ctx.seed) % 3 != 0:
-            continue
-        # lz4 only where the independent parser can afford to decode it
-        add(b, "bulk", ["none", "zlib"][i % 2], FCOMPS[i % 3] if i % 4 == 0 else "none", THREADS[i % 2], ctx.seed * 104729 + i)
-    for i, b in enumerate(f7):
-        if quick and (i + ctx.seed) % 4 != 0:
-            continue
-        add(b, "f7", ["none", "zlib"][i % 2], "none", THREADS[i % 2], ctx.seed * 15485863 + i)
+    # bulk shapes write blocks of up to 32 MiB: every shape runs with two (quick) or half (thorough) of its option vectors, rotating with the seed
+    for fam, lst, mult in (("bulk", bulk, 104729), ("f7", f7, 15485863)):
+        byshape = {}
+        for b in lst:
+            byshape.setdefault(shape_of(b), []).append(b)
+        i = 0
+        for sh in sorted(byshape):
+            grp = byshape[sh]
+            want = 2 if quick else max(2, len(grp) // 2)
+            step = max(1, len(grp) // want)
+            pick = [grp[(ctx.seed + len(sh) + j * step) % len(grp)] for j in range(min(want, len(grp)))]
+            for b in pick:
+                # lz4 only where the independent parser can afford to decode it
+                add(b, fam, ["none", "zlib"][i % 2], (FCOMPS[i % 3] if i % 4 == 0 else "none") if fam == "bulk" else "none",
+                    THREADS[i % 2], ctx.seed * mult + i)
+                i += 1
     return cases
 
 
@@ -218,80 +223,85 @@ def check_framing(c, info):
     return problems, layout
 
 
-def run_cases(ctx, cases, keep_files=False):
+def judge(ctx, c, r, stats):
+    exp = c["exp"]
+    if r.get("skipped"):
+        return
+    if not r.get("ok"):
+        if "crash" in r:
+            what = "harness %s at step %s: %s" % (r["crash"], r.get("step"), r.get("stderr", "")[:900])
+            ctx.violation(signature(c, r), {"case": c, "result": r}, what)
+            return
+        got = r.get("got")
+        if exp["outcome"] == "ok" and exp["ioutcome"] != "ok" and isinstance(got, str) and got.split(":")[0] == exp["ioutcome"]:
+            # the implementation-shaped layer of the spec predicts exactly this failure: the open finding F7a
+            sig = "pbf-blob-limit ioutcome=%s got=%s %s shape=%s" % (exp["ioutcome"], got.split(":")[0], opt_str(c["opt"]), shape_of(c))
+            ctx.violation(sig, {"case": c, "result": r}, "the A-layer demands a loss-free round trip, the Writer gave up as the I-layer "
+                          "predicts (an object larger than the 5 %% margin of the can_add gate): %s" % r.get("note", ""))
+            return
+        what = "step %s: %s: expected %s got %s" % (r.get("step"), r.get("note", ""), json.dumps(r.get("exp"))[:400], json.dumps(got)[:400])
+        ctx.violation(signature(c, r), {"case": c, "result": r}, what)
+        return
+    info = r.get("info", {})
+    if info.get("outcome") == "writer_error":
+        stats["writer_error_as_required"] += 1
+        return
+    if info.get("writer_accepted_unexpressible"):
+        stats["accepted_and_round_tripped_beyond_model"] = stats.get("accepted_and_round_tripped_beyond_model", 0) + 1
+        return
+    if exp["ioutcome"] != "ok":
+        # The real pair round-trips what the implementation-shaped layer says it cannot (e.g. F7a repaired): the property as
+        # stated holds for this case, the I-layer of the spec is out of date.  Evidence, not a verdict.
+        stats["ilayer_outcome_drift"] = stats.get("ilayer_outcome_drift", 0) + 1
+    stats["ok"] += 1
+    if c["opt"]["fmt"] == "pbf" and os.path.exists(info.get("file", "")):
+        problems, layout = check_framing(c, info)
+        stats["pbf_files_parsed"] += 1
+        for kind, text in problems:
+            ctx.violation("framing %s %s shape=%s" % (kind, opt_str(c["opt"]), shape_of(c)), {"case": c, "result": r},
+                          "independent PBF framing parser: " + text)
+        if c["fam"] in ("bulk", "f7") and all(e["cls"] in ("med", "big") or e["n"] == 1 for e in c["input"]):
+            stats["layout_compared"] += 1
+            if layout == [[b["type"], b["count"]] for b in exp["blocks"]]:
+                stats["layout_as_modelled"] += 1
+
+
+def run_cases(ctx, cases):
     binary = build()
     tmp = os.path.join(vlib.BUILD, "tmp", "C01_%d" % os.getpid())
-    shutil.rmtree(tmp, ignore_errors=True)
-    os.makedirs(tmp)
     byid = {c["id"]: c for c in cases}
-    results = []
+    stats = {"ok": 0, "pbf_files_parsed": 0, "layout_as_modelled": 0, "layout_compared": 0, "writer_error_as_required": 0}
+    # Batches bound the disk space of the files kept for the framing parser; heavy cases write blocks of ~32 MiB.
+    hv = [c for c in cases if heavy(c)]
+    lt = [c for c in cases if not heavy(c)]
+    batches = [(hv[i:i + 48], 6) for i in range(0, len(hv), 48)] + [(lt[i:i + 4000], max(2, vlib.NCPU // 2)) for i in range(0, len(lt), 4000)]
+    nres = 0
     try:
-        # heavy cases write ~32 MiB blocks: few at a time, first
-        groups = []
-        for th in THREADS:
-            hv = [c for c in cases if c["threads"] == th and heavy(c)]
-            lt = [c for c in cases if c["threads"] == th and not heavy(c)]
-            if hv:
-                groups.append((th, hv, min(vlib.NCPU, 6)))
-            if lt:
-                groups.append((th, lt, vlib.NCPU))
-        lock = threading.Lock()
+        for batch, nproc in batches:
+            shutil.rmtree(tmp, ignore_errors=True)
+            os.makedirs(tmp)
+            results = []
+            lock = threading.Lock()
 
-        def go(g):
-            th, cs, nproc = g
-            r = vlib.replay_cases(binary, cs, nproc=max(1, nproc // 2), timeout=2400, args=[tmp, "keep"],
-                                  env={"OSMIUM_POOL_THREADS": str(th)})
-            with lock:
-                results.extend(r)
+            def go(th):
+                cs = [c for c in batch if c["threads"] == th]
+                r = vlib.replay_cases(binary, cs, nproc=nproc, timeout=2400, args=[tmp, "keep"], env={"OSMIUM_POOL_THREADS": str(th)})
+                with lock:
+                    results.extend(r)
 
-        with ThreadPoolExecutor(max_workers=2) as ex:
-            list(ex.map(go, groups))
-        if len(results) != len(cases):
-            raise vlib.ModelFailure("replay returned %d results for %d cases" % (len(results), len(cases)))
-        stats = {"ok": 0, "pbf_files_parsed": 0, "layout_as_modelled": 0, "layout_compared": 0, "writer_error_as_required": 0}
-        for r in results:
-            c = byid[r["id"]]
-            exp = c["exp"]
-            if r.get("skipped"):
-                continue
-            if not r.get("ok"):
-                if "crash" in r:
-                    what = "harness %s at step %s: %s" % (r["crash"], r.get("step"), r.get("stderr", "")[:900])
-                    ctx.violation(signature(c, r), {"case": c, "result": r}, what)
-                    continue
-                got = r.get("got")
-                if exp["outcome"] == "ok" and exp["ioutcome"] != "ok" and isinstance(got, str) and got.split(":")[0] == exp["ioutcome"]:
-                    # the implementation-shaped layer of the spec predicts exactly this failure: the open finding F7a
-                    sig = "pbf-blob-limit ioutcome=%s got=%s %s shape=%s" % (exp["ioutcome"], got.split(":")[0], opt_str(c["opt"]), shape_of(c))
-                    ctx.violation(sig, {"case": c, "result": r}, "the A-layer demands a loss-free round trip, the Writer gave up as the I-layer "
-                                  "predicts (an object larger than the 5 %% margin of the can_add gate): %s" % r.get("note", ""))
-                    continue
-                what = "step %s: %s: expected %s got %s" % (r.get("step"), r.get("note", ""), json.dumps(r.get("exp"))[:400], json.dumps(got)[:400])
-                ctx.violation(signature(c, r), {"case": c, "result": r}, what)
-                continue
-            info = r.get("info", {})
-            if info.get("outcome") == "writer_error":
-                stats["writer_error_as_required"] += 1
-                continue
-            if exp["ioutcome"] != "ok":
-                ctx.violation("roundtrip-model %s shape=%s" % (opt_str(c["opt"]), shape_of(c)), {"case": c, "result": r},
-                              "the implementation-shaped layer of the spec predicts %s, the real Writer/Reader pair round-trips the data" % exp["ioutcome"])
-                continue
-            stats["ok"] += 1
-            if c["opt"]["fmt"] == "pbf" and os.path.exists(info.get("file", "")):
-                problems, layout = check_framing(c, info)
-                stats["pbf_files_parsed"] += 1
-                for kind, text in problems:
-                    ctx.violation("framing %s %s shape=%s" % (kind, opt_str(c["opt"]), shape_of(c)), {"case": c, "result": r},
-                                  "independent PBF framing parser: " + text)
-                if c["fam"] in ("bulk", "f7") and all(e["cls"] in ("med", "big") or e["n"] == 1 for e in c["input"]):
-                    stats["layout_compared"] += 1
-                    if layout == [[b["type"], b["count"]] for b in exp["blocks"]]:
-                        stats["layout_as_modelled"] += 1
+            with ThreadPoolExecutor(max_workers=len(THREADS)) as ex:
+                list(ex.map(go, THREADS))
+            nres += len(results)
+            for r in results:
+                judge(ctx, byid[r["id"]], r, stats)
+        if nres != len(cases):
+            raise vlib.ModelFailure("replay returned %d results for %d cases" % (nres, len(cases)))
+        if stats.get("ilayer_outcome_drift"):
+            vlib.log("NOTE: %d case(s) round-trip although the implementation-shaped layer of RoundTrip.tla predicts a failure "
+                     "(finding F7a repaired?): update the PBF gate in the spec" % stats["ilayer_outcome_drift"])
         return stats
     finally:
-        if not keep_files:
-            shutil.rmtree(tmp, ignore_errors=True)
+        shutil.rmtree(tmp, ignore_errors=True)
 
 
 def run(ctx):
@@ -361,3 +371,38 @@ def replay(ctx, path):
     ctx.states = ctx.transitions = 1
     ctx.extra["replay"] = stats
     ctx.sample({"opt": c["opt"], "threads": c["threads"], "shape": shape_of(c)})
+
+
+def selftest(ctx):
+    """Binding of the replay itself: doctored expectations have to be reported (no tree is touched)."""
+    r = vlib.tlc_ok(vlib.tlc("MCRoundTrip", "GenRoundTripSeqQ.cfg", workers=2, extra=["-noGenerateSpecTE"], tag="C01_selftest"), "selftest export")
+    base = sorted(r.cases, key=lambda c: json.dumps(c, sort_keys=True))
+    pbf = next(c for c in base if c["opt"]["fmt"] == "pbf" and not c["opt"]["hist"] and c["input"][0]["ver"] == "v")
+    xml = next(c for c in base if c["opt"]["fmt"] == "xml" and c["input"][0]["ver"] == "v")
+
+    def mk(i, b, fn):
+        c = json.loads(json.dumps(b))
+        c["opt"]["md"] = sorted(c["opt"]["md"])
+        c.update(id="selftest-%d" % i, fam="seq", threads=THREADS[i % 2], seed=ctx.seed + i, sizes=SIZES, header={"generator": "v", "boxes": 1})
+        fn(c)
+        return c
+
+    def flip_version(c):
+        c["exp"]["objs"][0]["ver"] = "0"
+
+    def drop_generator(c):
+        c["exp"]["hdr"]["generator"] = "none"
+
+    def want_history_flag(c):
+        c["exp"]["required"] = list(c["exp"]["required"]) + ["HistoricalInformation"]
+
+    doctored = [mk(0, xml, flip_version), mk(1, pbf, drop_generator), mk(2, pbf, want_history_flag), mk(3, pbf, lambda c: None)]
+    run_cases(ctx, doctored)
+    sigs = [v[0] for v in ctx.violations]
+    ok = (any("field=version" in x for x in sigs) and any("header generator" in v[2] for v in ctx.violations)
+          and any(x.startswith("framing header-features") for x in sigs) and len(ctx.violations) == 3)
+    vlib.log("selftest: %d doctored expectations reported, undoctored case accepted: %s" % (len(ctx.violations), "OK" if ok else "FAILED"))
+    for v in ctx.violations:
+        vlib.log("  reported: " + v[0][:160])
+    ctx.violations = []
+    return 0 if ok else 2
